@@ -123,7 +123,9 @@ func VerifC04_MirrorLock() { vpLockScript(true) }
 
 // VerifC08_LockWait: a lock is held with a solver-chosen timeout (or none); a second client calls Lock with a
 // solver-chosen positive deadline, through the owner or another member. It either acquires the lock - never
-// before the holder's timeout has elapsed - or fails with lock-not-acquired, never earlier than its deadline.
+// before the holder's timeout has elapsed - or fails with lock-not-acquired, never earlier than its deadline. When
+// it acquires the lock with a timeout of its own, a third client is refused until that timeout, counted from the
+// acquisition, is over, and served afterwards.
 func VerifC08_LockWait() {
 	cl := vpTwoMembers(1, 0)
 	ctx := context.Background()
@@ -140,11 +142,28 @@ func VerifC08_LockWait() {
 	wait := vpRange("deadline", 1, 45)
 	entry := vpChoose("entry", 2)
 	before := vpNowMs()
-	tok, err := vpDMap(cl.members[entry], "l").Lock(ctx, "k", 0, time.Duration(wait)*time.Millisecond)
+	// the waiting locker asks for a timeout of its own (or none): it counts from the moment the lock is acquired
+	timeout2 := int64(0)
+	if vpBool("timed2") {
+		timeout2 = int64(vpRange("timeout2", 15, 45))
+	}
+	tok, err := vpDMap(cl.members[entry], "l").Lock(ctx, "k", time.Duration(timeout2)*time.Millisecond, time.Duration(wait)*time.Millisecond)
 	after := vpNowMs()
 	if err == nil {
 		vpAssert(len(tok) == 16, "token-returned")
 		vpAssert(holderDeadline != 0 && after >= holderDeadline, "lock-acquired-only-after-holder-timeout")
+		// a third client tries after a solver-chosen pause: it gets the lock only once the second holder's own
+		// timeout, counted from its acquisition, is over
+		pause := int64(vpRange("pause", 0, 60))
+		vpSleepMs(int(pause))
+		now3 := vpNowMs()
+		_, err3 := vpDMap(cl.members[vpChoose("entry3", 2)], "l").Lock(ctx, "k", 0, 0)
+		switch {
+		case timeout2 == 0 || now3+vpMarginMs <= after+timeout2:
+			vpAssert(errors.Is(err3, ErrLockNotAcquired), "waiting-lockers-lock-is-held-for-its-whole-timeout")
+		case now3 >= after+timeout2+vpMarginMs:
+			vpAssert(err3 == nil, "waiting-lockers-lock-expires-after-its-timeout")
+		}
 	} else {
 		vpAssert(errors.Is(err, ErrLockNotAcquired), "waiting-lock-fails-with-lock-not-acquired")
 		vpAssert(after-before >= int64(wait), "lock-not-acquired-no-earlier-than-deadline")
